@@ -185,7 +185,26 @@ def r_selected_component(idx, rep, rule="R-SELCOMP", floor=0):
                 key = "%s|division by a selected component of %s" % (f.key, stable_text(d.value, f.node))
                 where = "%s:%d" % (m.relpath, node.lineno)
                 defs = [v for v, pos in _defs(f, k) if pos is None]
+                # an index that is only ever one of the function's own index PARAMETERS (`ia, ib = (i0, i1)` under a test, mirror arms rolled into one) has the
+                # status of a parameter: which component it names is the caller's dispatch, judged there (R-CASEDISPATCH)
+                from ..core.astutil import assign_pairs as _ap
+                alld = [v_ for st_ in ast.walk(f.node) if isinstance(st_, ast.Assign) for t_, v_ in _ap(st_) if isinstance(t_, ast.Name) and t_.id == k]
+                if alld and all(isinstance(v_, ast.Name) and v_.id in params for v_ in alld):
+                    continue
                 ok, why = False, "index `%s` has %d definitions" % (k, len(defs))
+                if len(defs) == 1 and isinstance(defs[0], ast.Call) and call_name(defs[0]) == "np.argmax" and defs[0].args:
+                    # np.argmax(mask) with mask = (vec != 0) and an assertion that the mask has a True entry: the first non-zero component
+                    from ..core.astutil import resolved as _res
+                    mk = defs[0].args[0]
+                    mv = _res(f.node, mk) if isinstance(mk, ast.Name) else mk
+                    t_ = ncmp(mv) if isinstance(mv, ast.Compare) else None
+                    nonzero_ = t_ is not None and t_[0] == "!=" and vec in (u(t_[1]), u(t_[2])) and any(is_const(x_, 0) or is_const(x_, 0.0) for x_ in (t_[1], t_[2]))
+                    mname = mk.id if isinstance(mk, ast.Name) else None
+                    asserted_ = mname is not None and any(isinstance(a_, ast.Assert) and mname in {n_.id for n_ in ast.walk(a_.test) if isinstance(n_, ast.Name)}
+                                                          and ("any" in u(a_.test)) for a_ in ast.walk(f.node))
+                    if nonzero_ and asserted_:
+                        rep.ok(rule, key, where, "first True of the mask `%s != 0`, asserted non-empty" % vec)
+                        continue
                 if len(defs) == 1:
                     v = defs[0]
                     # np.argmax(np.abs(vec))
